@@ -6,8 +6,7 @@ from sa.astq import norm_text, ev_setattr
 from sa.idioms import guarded, reach_under, combine, attr_truth
 from sa.project import dotted, walk_local, AnalysisError
 
-EXPLANATION = (
-    "Shutdown chain decided on the source: R1 SIGINT/SIGTERM/SIGQUIT are in the "
+EXPLANATION = (    "Shutdown chain decided on the source: R1 SIGINT/SIGTERM/SIGQUIT are in the "
     "registered signal table, installed with the dispatching handler, mapped to "
     "handle_<name> methods that reach quit(), which posts a quit dispatch with "
     "add_callback_from_signal; R2 no function on the path signal -> dispatch -> "
@@ -22,7 +21,9 @@ EXPLANATION = (
     "in the finally of the run loop when not restarting and ends in sys.exit(0); "
     "R6 Pidfile.validate returns a pid only after a successful kill(pid, 0) and "
     "None for ESRCH / garbled / empty / <=0 / missing; create refuses only a "
-    "live foreign pid and does so before opening the file. Decides these "
+    "live foreign pid and does so before opening the file."
+    "R3 also requires Arbiter.stop to hold the exclusive slot for its whole duration (decorator order); R6 also requires that the only probe error meaning 'stale' is ESRCH. "
+    "Decides these "
     "necessary conditions, not the state left on the machine.")
 ASSUMPTIONS = ["posix platform"]
 
